@@ -37,7 +37,14 @@ impl SymbolTable {
     { unimplemented!() }
     #[verifier::external_body]
     pub fn in_function(&self) -> (r: bool) ensures r == sym_in_function(*self) { unimplemented!() }
+    // PROVED-BY: unit c09_names (wrapper) - the per-context part is not decided
+    #[verifier::external_body]
+    pub fn define(&mut self, name: &str) -> (s: Symbol)
+        ensures s == sym_define_symbol(*old(self), name@), *final(self) == sym_after_define(*old(self), name@)
+    { unimplemented!() }
 }
+pub uninterp spec fn sym_define_symbol(t: SymbolTable, name: Seq<char>) -> Symbol;
+pub uninterp spec fn sym_after_define(t: SymbolTable, name: Seq<char>) -> SymbolTable;
 
 pub struct LoopContext { pub start: usize, pub break_instructions: Vec<usize> }
 
